@@ -313,11 +313,11 @@ PROPS = {
     },
     'C18': {
         'level': 'proof',
-        'level_text': 'Kani proves, loop-free over all u8 field values for every arity 2..16, that the hand-written PartialEq of sequences is equality of all fields, that Hash writes every field in order (so equal values hash equally and every field participates), and that clone() == self with equal hash; Span/Position equality and hash are identity-based on (input pointer, start, end). Determinism of entry points (fresh stack and tracker per call, no global state) is a syntactic scan plus a bounded native check (parse twice, compare, hash). "Any order of earlier parses" is a history property outside function contracts.',
+        'level_text': 'Kani proves, loop-free over all u8 field values for every arity 2..16, that the hand-written PartialEq of sequences is equality of all fields, that Hash writes every field in order (so equal values hash equally and every field participates), and that clone() == self with equal hash; Span/Position equality and hash are identity-based on (input pointer, start, end). Determinism of the entry points: Verus proves (unit rules) that try_parse / try_check / try_parse_partial / try_check_partial build a fresh Stack per call and that their verdict and stopping offset are the values of spec functions of the input alone (full / sem on the empty stack), so two calls on the same input agree; that the trees are equal too is a bounded native check (parse twice and interleaved, compare with ==, hash, Debug). "Any order of earlier parses" is a history property outside function contracts.',
         'level_note': NOTE_COMMON + 'Derived Clone/Hash/PartialEq on rule structs are rustc derives (trusted); histories n/a.',
         'technique': TECH,
-        'verus': [],
-        'expanded': False,
+        'verus': ['rules'],
+        'expanded': True,
         'kani': [
             ('k_acc', 'eqhash_seq2', 'complete', 'q', 'sequence PartialEq/Hash/Clone, arity 2, all alternative indices x all u8 payloads (loop-free)'),
             ('k_acc', 'eqhash_seq3', 'complete', 'q', 'sequence PartialEq/Hash/Clone, arity 3, all alternative indices x all u8 payloads (loop-free)'),
